@@ -227,6 +227,70 @@ pub fn c18(h: &mut H) {
         }
         check_group(h, "key pair", &k.n_mod, &k.p, &k.q, &elems, p.secparam, kid);
         h.stat("C18.keypairs");
+        // the same generation replayed with the second prime search LANDING ON THE FIRST PRIME AGAIN (the
+        // successful (bits, prime) draws of p injected once more at the start of the search for q): the
+        // generator must discard that candidate and continue -- N is a product of two DISTINCT safe primes
+        {
+            let t = &k.tape;
+            let mut cut = None;
+            let mut i = 0;
+            while i + 1 < t.len() {
+                if t[i].0 == "bits" && t[i + 1].0 == "prime" {
+                    let cand = Integer::from(&t[i + 1].1 * 2u32) + 1u32;
+                    if cand.is_probably_prime(30) != IsPrime::No {
+                        cut = Some(i + 2);
+                        break;
+                    }
+                    i += 2;
+                } else {
+                    break;
+                }
+            }
+            if let Some(c) = cut {
+                let mut inj: Vec<(String, Integer)> = t[..c].to_vec();
+                inj.push(t[c - 2].clone());
+                inj.push(t[c - 1].clone());
+                inj.extend_from_slice(&t[c..]);
+                let (o, _) = call(h, "cl.keygen", vec![], inj.clone());
+                let id = h.last();
+                h.stat("C18.same_prime_twice");
+                match o.ok() {
+                    Some(v) => {
+                        let (p2, q2) = (field(&v["b"], "p"), field(&v["b"], "q"));
+                        h.expect(p2 != q2, "C18.p_ne_q", "key generation returned p == q when the second search met the first prime again", &[id]);
+                        h.expect(Integer::from(&p2 * &q2) == field(&v["a"], "N"), "C18.N", "replayed key generation: N != p*q", &[id]);
+                    }
+                    None => h.expect(false, "C18.same_prime_panic", "key generation panicked when the second search met the first prime again", &[id]),
+                }
+                // the trusted party's own modulus is generated by the same two searches
+                let (ckt, tt) = cpk(h, None, 1);
+                let _ = ckt;
+                let mut cut2 = None;
+                let mut j = 0;
+                while j + 1 < tt.len() {
+                    if tt[j].0 == "bits" && tt[j + 1].0 == "prime" {
+                        let cand = Integer::from(&tt[j + 1].1 * 2u32) + 1u32;
+                        if cand.is_probably_prime(30) != IsPrime::No { cut2 = Some(j + 2); break; }
+                        j += 2;
+                    } else { break; }
+                }
+                if let Some(c2) = cut2 {
+                    let mut inj2: Vec<(String, Integer)> = tt[..c2].to_vec();
+                    inj2.push(tt[c2 - 2].clone());
+                    inj2.push(tt[c2 - 1].clone());
+                    inj2.extend_from_slice(&tt[c2..]);
+                    let (o2, t2) = call(h, "cl.cpk", vec![Value::Null, json!(1)], inj2);
+                    let id2 = h.last();
+                    h.stat("C18.same_prime_twice_cpk");
+                    if let Some(v) = o2.ok() {
+                        let nn = field(v, "N");
+                        let first = Integer::from(&tt[c2 - 1].1 * 2u32) + 1u32;
+                        h.expect(nn != Integer::from(&first * &first), "C18.p_ne_q", "own-modulus commitment key has N = p^2 when the second search met the first prime again", &[id2]);
+                        h.expect(factors_from_tape(&nn, &t2).map(|(a, b)| a != b).unwrap_or(false), "C18.cpk_own_factors", "own-modulus commitment key (replayed): N is not a product of two distinct recorded safe primes", &[id2]);
+                    }
+                }
+            }
+        }
         // commitment key over the issuer modulus
         let (ck, _) = cpk(h, Some(&k.n_mod), nb);
         let cid = h.last();
